@@ -256,10 +256,31 @@ func errorHandled(fn *ssa.Function, errV ssa.Value) string {
 			case *ssa.MakeInterface:
 				visit(x, depth+1)
 			case ssa.CallInstruction:
-				n := callName(x.Common())
-				if strings.HasPrefix(n, "github.com/pkg/errors.Wrap") || strings.HasPrefix(n, "github.com/pkg/errors.WithMessage") || strings.HasPrefix(n, "github.com/pkg/errors.WithStack") {
-					if cv, ok := x.(ssa.Value); ok {
+				// any call that takes the error and yields an error (errors.Wrap, fmt.Errorf("%w"), …)
+				if cv, ok := x.(ssa.Value); ok {
+					res := x.Common().Signature().Results()
+					if res.Len() == 1 && isErrorT(res.At(0).Type()) {
 						visit(cv, depth+1)
+					}
+				}
+			case *ssa.Store:
+				// stored into a variadic argument array: follow the slice of that array into its call
+				if ia, ok := x.Addr.(*ssa.IndexAddr); ok {
+					if al, ok := ia.X.(*ssa.Alloc); ok {
+						for _, r2 := range referrers(al) {
+							if sl, ok := r2.(*ssa.Slice); ok {
+								for _, r3 := range referrers(sl) {
+									if ci, ok := r3.(ssa.CallInstruction); ok {
+										if cv, ok := ci.(ssa.Value); ok {
+											res := ci.Common().Signature().Results()
+											if res.Len() == 1 && isErrorT(res.At(0).Type()) {
+												visit(cv, depth+1)
+											}
+										}
+									}
+								}
+							}
+						}
 					}
 				}
 			case *ssa.BinOp:
